@@ -1,2 +1,4 @@
 import Ufw.Props.C11
-#print axioms Ufw.Props.C11.part_bounds_again
+#print axioms Ufw.Props.C11.crash_consistent
+#print axioms Ufw.Props.C11.torn_write
+#print axioms Ufw.Props.C11.io_error_propagates
